@@ -11,4 +11,5 @@ for s in $seeds; do
   git -C /repo checkout -- .
   f=$(echo "$out" | grep -m1 -o "formula [^ ]*" )
   if [ $rc -eq 1 ] && echo "$out" | grep -q "^VIOLATION property=$p "; then echo "$s: caught ($f)"; else echo "$s: MISSED rc=$rc"; fi
+  git -C /verif checkout -- evidence/$p.json 2>/dev/null      # the evidence of a run on a changed tree is not kept
 done
